@@ -10,13 +10,14 @@
      gen_block IfBlock  (`if_block`: labels else_N, end_else_N allocated BEFORE the condition,
                          condition lowered with if_true = (), if_false = goto else_N)
      eval_expr BooleanOp (`value_lowering`: bool_expr_branch e (set 1) (set 0))
+     truth_is_defeat    (`lower_defeat`; static and virtual defeat)
 
    F_model: boolean expression trees over
      - comparisons  a OP b,  OP in < > <= >= == !=,  a, b int operands:
          "safe" operands: integer literals or int locals/parameters of the enclosing function
          (`Indirect(STATE, [fp], -offset)`, read by `lwso`);
-         arithmetic operands x + y, x - y, x * y (nested), lowered as eval_expr's
-         BinaryArithmeticOp case does, including the keep / push_value / pop_value discipline
+         arithmetic operands x + y, x - y, x * y, -x, +x (nested), lowered as eval_expr's
+         BinaryArithmeticOp / Unary cases do, including the keep / push_value / pop_value discipline
          (`keep = not is_safe(right)`: a computed left operand is pushed on the frame while an
          unsafe right operand is evaluated).  `/` and `%` are outside F_model (the checked
          build's division guard is not modelled);
@@ -25,9 +26,10 @@
    in branch position with ARBITRARY if_true / if_false instruction sequences (the model takes
    them as lists of abstract lines, exactly like the Python function takes iterables).
 
-   F_proved (LowerBoolProofs.v, predicate `vars_ok`): F_model with SAFE comparison operands
-   (literals, locals).  Arithmetic operands are modelled and corresponded textually only; they
-   belong to `arith_lowering_correct` (DESIGN C01 item 3), the next piece of `Lower`.
+   F_proved (LowerBoolProofs.v, predicates `oexp_ok` / `vars_ok`) = F_model.  Also modelled, tied and
+   proved: `eval_opd` alone (arith_lowering_correct, DESIGN C01 item 3), get_expr_value of a boolean
+   expression (`eval_bool_value`), declarations / assignments of bool locals, and truth_is_defeat
+   (`lower_defeat`) with static and virtual defeat.
 
    Everything here is executable and extracted (Extract/ExtractLowerBool.v); the semantic theorems
    are in LowerBoolProofs.v.  The tables compare_map and halt_inversion come from the REGENERATED
@@ -56,7 +58,7 @@ Definition add_label (nm : lname) (st : lstate) : label * lstate :=
   ((nm, st nm), fun x => if lname_eqb x nm then S (st nm) else st x).
 
 (* ---------- abstract assembly lines ---------- *)
-Inductive reg := RAp | RFp | R0 | R1 | R2.
+Inductive reg := RAp | RFp | R0 | R1 | R2 | RDefeat.     (* state words addressed by label *)
 (* an AssemblyExpression: IntLiteral, State(LabelRef of a register word), LabelRef of a code label *)
 Inductive sym := SLit (z : Z) | SReg (r : reg) | SLab (l : label).
 Inductive ains :=
@@ -72,8 +74,9 @@ Inductive ains :=
 Inductive aline := ALabel (l : label) | AInstr (i : ains).
 
 (* ---------- source fragment ---------- *)
-(* int literal | i-th int local | binary arithmetic *)
-Inductive iopd := OLit (z : Z) | OVar (i : nat) | OArith (op : src_arith) (x y : iopd).
+(* int literal | i-th int local | binary arithmetic | unary - + *)
+Inductive unop := UNeg | UPos.
+Inductive iopd := OLit (z : Z) | OVar (i : nat) | OArith (op : src_arith) (x y : iopd) | OUn (u : unop) (x : iopd).
 Inductive bexpr :=
 | BLit (b : bool)
 | BVar (j : nat)                                       (* j-th bool local *)
@@ -119,7 +122,11 @@ Definition arith_instr (op : src_arith) : aop :=
 
 (* ---------- operands ---------- *)
 (* is_safe: PrimitiveValue or VariableLookup *)
-Definition is_safe (o : iopd) : bool := match o with OArith _ _ _ => false | _ => true end.
+Definition is_safe (o : iopd) : bool := match o with OLit _ | OVar _ => true | _ => false end.
+Definition reg_eqb (a b : reg) : bool :=
+  match a, b with RAp, RAp | RFp, RFp | R0, R0 | R1, R1 | R2, R2 | RDefeat, RDefeat => true | _, _ => false end.
+(* `arg_in != asm.State(r_out)` *)
+Definition is_state_of (r : reg) (v : sym) : bool := match v with SReg r' => reg_eqb r r' | _ => false end.
 
 (* the ValueBubble eval_expr returns, as far as F_model needs it *)
 Inductive bubble :=
@@ -137,6 +144,12 @@ Definition pop_value (r : reg) (b : bubble) : list aline * sym :=
 (* self.stack.offset while the bubble is live *)
 Definition top_after (top : Z) (b : bubble) : Z := match b with BuPushed off => off | _ => top end.
 
+(* the tail of eval_expr: result = State(r_out); vacuous unless keep, else push_value *)
+Definition finish_opd (E : env) (top : Z) (r_out : reg) (keep : bool) (code : list aline) : list aline * bubble :=
+  if keep
+  then (code ++ [AInstr (ASwso (SReg RFp) (SLit (- (top + wsize E))) (SReg r_out))], BuPushed (top + wsize E))
+  else (code, BuReg r_out).
+
 (* eval_expr(r_out, o, keep) for int operands; top = self.stack.offset on entry *)
 Fixpoint eval_opd (E : env) (top : Z) (r_out : reg) (o : iopd) (keep : bool) : list aline * bubble :=
   match o with
@@ -147,11 +160,16 @@ Fixpoint eval_opd (E : env) (top : Z) (r_out : reg) (o : iopd) (keep : bool) : l
       let (c2, rbub) := eval_opd E (top_after top lbub) R1 y false in      (* get_expr_value(r1, y) *)
       let (c2', right) := pop_value R1 rbub in
       let (c3, left) := pop_value R0 lbub in
-      let code := c1 ++ c2 ++ c2' ++ c3 ++ [AInstr (AArith (arith_instr op) r_out left right)] in
-      if keep
-      then (code ++ [AInstr (ASwso (SReg RFp) (SLit (- (top + wsize E))) (SReg r_out))],
-            BuPushed (top + wsize E))                                        (* push_value *)
-      else (code, BuReg r_out)
+      finish_opd E top r_out keep
+        (c1 ++ c2 ++ c2' ++ c3 ++ [AInstr (AArith (arith_instr op) r_out left right)])
+  | OUn u x =>
+      let (c, bub) := eval_opd E top r_out x false in                      (* get_expr_value(r_out, x) *)
+      let (c', v) := pop_value r_out bub in
+      finish_opd E top r_out keep
+        (c ++ c' ++ match u with                                           (* un_op_reg_arg *)
+                    | UNeg => [AInstr (AArith Asub r_out (SLit 0) v)]
+                    | UPos => if is_state_of r_out v then [] else [AInstr (AMov r_out v)]
+                    end)
   end.
 (* the three lines of the compare case:
      left_bubble = eval_expr(r0, left, keep = not is_safe(right))
@@ -163,6 +181,29 @@ Definition compare_operands (E : env) (a b : iopd) : list aline * sym * sym :=
   let (c2', right) := pop_value R1 rbub in
   let (c3, left) := pop_value R0 lbub in
   (c1 ++ c2 ++ c2' ++ c3, left, right).
+
+(* temps_needed: the maximum number of words the lowering of an operand keeps pushed above the
+   stack top at any moment (LowerBoolProofs.eval_opd_stores: every `swso [fp], -off, _` of the
+   emitted code has top < off <= top + temps * w, and the bound is attained) *)
+Definition pushed (o : iopd) (keep : bool) : nat := if keep && negb (is_safe o) then 1%nat else 0%nat.
+Fixpoint temps (o : iopd) (keep : bool) : nat :=
+  match o with
+  | OLit _ | OVar _ => 0%nat
+  | OArith _ x y =>
+      let kx := negb (is_safe y) in
+      Nat.max (Nat.max (temps x kx) (pushed x kx + temps y false)) (if keep then 1%nat else 0%nat)
+  | OUn _ x => Nat.max (temps x false) (if keep then 1%nat else 0%nat)
+  end.
+Definition temps_cmp (a b : iopd) : nat :=
+  let ka := negb (is_safe b) in Nat.max (temps a ka) (pushed a ka + temps b false).
+
+Fixpoint temps_b (e : bexpr) : nat :=
+  match e with
+  | BCmp _ a b => temps_cmp a b
+  | BNot e1 => temps_b e1
+  | BAnd e1 e2 | BOr e1 e2 => Nat.max (temps_b e1) (temps_b e2)
+  | _ => 0%nat
+  end.
 
 (* ---------- bool_expr_branch ---------- *)
 Fixpoint lower_branch (E : env) (e : bexpr) (if_true if_false : list aline) (st : lstate)
@@ -233,6 +274,54 @@ Definition value_lowering_keep (E : env) (e : bexpr) (st : lstate) : list aline 
   lower_branch (with_top E off) e [AInstr (ASbso (SReg RFp) (SLit (- off)) (SLit 1))]
                                   [AInstr (ASbso (SReg RFp) (SLit (- off)) (SLit 0))] st.
 
+(* ---------- get_expr_value(r_out, e) for a BOOLEAN expression e: code, value, label state.
+   literal -> IntLiteral; bool local -> lbso; `not x` -> Unary case: value of x, then
+   `sub [r_out], 1, value`; comparison / and / or -> BooleanOp case into State(r_out) ---------- *)
+Fixpoint eval_bool_value (E : env) (r_out : reg) (e : bexpr) (st : lstate) : list aline * sym * lstate :=
+  match e with
+  | BLit b => ([], SLit (if b then 1 else 0), st)
+  | BVar j => ([AInstr (ALbso r_out (SReg RFp) (SLit (- bool_off E j)))], SReg r_out, st)
+  | BNot x =>
+      let '(c, v, st') := eval_bool_value E r_out x st in
+      (c ++ [AInstr (AArith Asub r_out (SLit 1) v)], SReg r_out, st')
+  | _ => let (c, st') := value_lowering E e r_out st in (c, SReg r_out, st')
+  end.
+
+(* gen_stmts, Assignment to a bool local at frame offset off:
+     value = get_expr_value(r1, e);  access.set(value) *)
+Definition assign_bool (E : env) (off : Z) (e : bexpr) (st : lstate) : list aline * lstate :=
+  let '(c, v, st') := eval_bool_value E R1 e st in
+  (c ++ [AInstr (ASbso (SReg RFp) (SLit (- off)) v)], st').
+(* gen_stmts, Declaration `bool x = e;` (push_expr(r1, e)): a comparison / and / or is a BooleanOp
+   with keep = True; anything else is evaluated (into r1 unless a literal) and pushed as a byte *)
+Definition declare_bool (E : env) (e : bexpr) (st : lstate) : list aline * lstate :=
+  match e with
+  | BCmp _ _ _ | BAnd _ _ | BOr _ _ => value_lowering_keep E e st
+  | _ => assign_bool E (stack_top E + 1) e st
+  end.
+
+(* ---------- truth_is_defeat.  virt = (self.effective_defeat != stdlib.halt): defeat is
+   virtualised and effective_defeat is State(defeat) ---------- *)
+Definition defeat_jump (virt : bool) : list aline :=
+  if virt then [AInstr (AJump (SReg RDefeat))] else [].
+Fixpoint lower_defeat (E : env) (virt : bool) (e : bexpr) (st : lstate) : list aline * lstate :=
+  match e with
+  | BCmp op a b =>
+      let '(co, lhs, rhs) := compare_operands E a b in
+      (co ++ defeat_jump virt ++ [AInstr (AHc (compare_instr op) lhs rhs)], st)
+  | BOr e1 e2 =>
+      let (c1, st1) := lower_defeat E virt e1 st in
+      let (c2, st2) := lower_defeat E virt e2 st1 in
+      (c1 ++ c2, st2)
+  | BLit b => (if b then defeat_jump virt ++ [AInstr AHaltI] else [], st)
+  | BNot x =>
+      let '(c, v, st') := eval_bool_value E R1 x st in
+      (c ++ defeat_jump virt ++ [AInstr (AHc Ceq v (SLit 0))], st')
+  | _ =>
+      let '(c, v, st') := eval_bool_value E R1 e st in
+      (c ++ defeat_jump virt ++ [AInstr (AHc Cne v (SLit 0))], st')
+  end.
+
 (* ---------- printing: one line exactly as asm.lines renders it (indentation and Metadata
    comment lines are not instructions and are stripped by the correspondence) ---------- *)
 Open Scope string_scope.
@@ -247,7 +336,7 @@ Definition lname_str (n : lname) : string :=
   end.
 Definition label_str (l : label) : string := lname_str (fst l) ++ "_" ++ dec (Z.of_nat (snd l)).
 Definition reg_str (r : reg) : string :=
-  match r with RAp => "ap" | RFp => "fp" | R0 => "r0" | R1 => "r1" | R2 => "r2" end.
+  match r with RAp => "ap" | RFp => "fp" | R0 => "r0" | R1 => "r1" | R2 => "r2" | RDefeat => "defeat" end.
 Definition sym_str (s : sym) : string :=
   match s with
   | SLit z => dec z
@@ -292,11 +381,12 @@ Definition is_you_env (w : Z) (nparams : nat) : env :=
         w ((Z.of_nat nparams + 1) * w).
 
 (* ---------- two-pass label resolution at a base address ---------- *)
-Record regmap := mkregs { a_ap : Z; a_fp : Z; a_r0 : Z; a_r1 : Z; a_r2 : Z }.
+Record regmap := mkregs { a_ap : Z; a_fp : Z; a_r0 : Z; a_r1 : Z; a_r2 : Z; a_defeat : Z }.
 Definition regaddr (R : regmap) (r : reg) : Z :=
-  match r with RAp => a_ap R | RFp => a_fp R | R0 => a_r0 R | R1 => a_r1 R | R2 => a_r2 R end.
-(* the state section hidc emits: ap, fp, r0, r1, r2 in this order, one word each *)
-Definition hidc_regs (w : Z) : regmap := mkregs 0 w (2 * w) (3 * w) (4 * w).
+  match r with RAp => a_ap R | RFp => a_fp R | R0 => a_r0 R | R1 => a_r1 R | R2 => a_r2 R | RDefeat => a_defeat R end.
+(* the state section hidc emits: ap, fp, r0, r1, r2 in this order, one word each; the `defeat`
+   word (present when defeat is virtualised) sits after the stack, at an address d *)
+Definition hidc_regs (w d : Z) : regmap := mkregs 0 w (2 * w) (3 * w) (4 * w) d.
 
 Definition res_sym (R : regmap) (lab : label -> Z) (s : sym) : operand :=
   match s with SLit z => Imm z | SReg r => St (regaddr R r) | SLab l => Imm (lab l) end.
